@@ -640,6 +640,139 @@ def inline_module_constants(tree: ast.Module, ref_module_names: set[str]) -> lis
     return done
 
 
+# --------------------------------------------------------------------------- renamed functions
+
+
+def _all_identifier_uses(trees, name: str) -> int:
+    n = 0
+    for t in trees:
+        for x in ast.walk(t):
+            if isinstance(x, ast.Name) and x.id == name:
+                n += 1
+            elif isinstance(x, ast.Attribute) and x.attr == name:
+                n += 1
+            elif isinstance(x, (*FuncT, ast.ClassDef)) and x.name == name:
+                n += 1
+            elif isinstance(x, ast.alias) and (x.name == name or x.asname == name):
+                n += 1
+            elif isinstance(x, ast.arg) and x.arg == name:
+                n += 1
+            elif isinstance(x, ast.keyword) and x.arg == name:
+                n += 1
+    return n
+
+
+def _rename_everywhere(trees, old: str, new: str) -> None:
+    for t in trees:
+        for x in ast.walk(t):
+            if isinstance(x, ast.Name) and x.id == old:
+                x.id = new
+            elif isinstance(x, ast.Attribute) and x.attr == old:
+                x.attr = new
+            elif isinstance(x, FuncT) and x.name == old:
+                x.name = new
+            elif isinstance(x, ast.alias):
+                if x.name == old:
+                    x.name = new
+                if x.asname == old:
+                    x.asname = new
+
+
+def _mangled(cls_name: str | None, name: str) -> list[str]:
+    out = [name]
+    if cls_name and name.startswith("__") and not name.endswith("__"):
+        out.append(f"_{cls_name.lstrip('_')}{name}")
+    return out
+
+
+def restore_function_names(trees: dict[str, ast.AST]) -> dict[str, str]:
+    """a function of the reference that is missing, next to a new function in the same scope whose body is equivalent
+    to it, is that function under a new name: the view gets the reference name back (definition and all references in
+    the package).  Only when the new name is used for nothing else and the old name is not in use any more."""
+    from .equiv import Equiv, _canon_params
+
+    log: dict[str, str] = {}
+    all_trees = list(trees.values())
+    for modname, tree in trees.items():
+        ref = reference_defs(modname)
+        if not ref:
+            continue
+        cur = _defs(tree)
+        missing = [q for q in ref if q not in cur]
+        new = [q for q in cur if q not in ref]
+        for q in missing:
+            scope = q.rpartition(".")[0]
+            cands = [g for g in new if g.rpartition(".")[0] == scope]
+            for g in cands:
+                F, G = ref[q], cur[g]
+                try:
+                    same = ast.dump(_canon_params(G).args) == ast.dump(_canon_params(F).args) or True
+                    eq = Equiv(_renamed_copy(G, F.name), F).function()
+                except RecursionError:
+                    eq = False
+                if not eq:
+                    continue
+                old_name, new_name = G.name, F.name
+                if _all_identifier_uses(all_trees, new_name) != 0:
+                    continue  # the reference name is (still) used for something
+                _rename_everywhere(all_trees, old_name, new_name)
+                # private names are mangled inside classes: `self.__x` is referenced as `_Cls__x` from outside
+                cls = scope if scope and scope in {c.name for c in ast.walk(tree) if isinstance(c, ast.ClassDef)} else None
+                for a, b in zip(_mangled(cls, old_name)[1:], _mangled(cls, new_name)[1:]):
+                    _rename_everywhere(all_trees, a, b)
+                log[f"{modname}.{g}"] = f"viewed under its reference name {q}"
+                new.remove(g)
+                break
+    # nested functions renamed inside their (unchanged) parent
+    for modname, tree in trees.items():
+        ref = reference_defs(modname)
+        for q, fn in _defs(tree).items():
+            r = ref.get(q)
+            if r is None:
+                continue
+            _restore_nested(fn, r, f"{modname}.{q}", log)
+    return log
+
+
+def _renamed_copy(fn, name: str):
+    c = copy.deepcopy(fn)
+    old = c.name
+    c.name = name
+    for n in ast.walk(c):
+        if isinstance(n, ast.Name) and n.id == old:
+            n.id = name
+        elif isinstance(n, ast.Attribute) and n.attr == old:
+            n.attr = name
+    return c
+
+
+def _restore_nested(fn, r, where: str, log: dict) -> None:
+    from .equiv import Equiv
+
+    cur_nested = {s.name: s for s in fn.body if isinstance(s, FuncT)}
+    ref_nested = {s.name: s for s in r.body if isinstance(s, FuncT)}
+    missing = [n for n in ref_nested if n not in cur_nested]
+    new = [n for n in cur_nested if n not in ref_nested]
+    for old in missing:
+        for g in list(new):
+            try:
+                eq = Equiv(_renamed_copy(cur_nested[g], old), ref_nested[old]).function()
+            except RecursionError:
+                eq = False
+            if eq and not any(isinstance(n, ast.Name) and n.id == old for n in ast.walk(fn)):
+                for n in ast.walk(fn):
+                    if isinstance(n, ast.Name) and n.id == g:
+                        n.id = old
+                    elif isinstance(n, FuncT) and n.name == g:
+                        n.name = old
+                log[f"{where}.{g}"] = f"nested function viewed under its reference name {old}"
+                new.remove(g)
+                break
+    for name, sub in cur_nested.items():
+        if name in ref_nested:
+            _restore_nested(sub, ref_nested[name], f"{where}.{name}", log)
+
+
 # --------------------------------------------------------------------------- annotations
 
 
